@@ -91,6 +91,10 @@ pub fn datasets(tier: &str) -> Vec<(String, Vec<(usize, Row)>)> {
             out.push((format!("pair({i},{j})"), rows));
         }
     }
+    // a long data set: every alphabet position several times, in zones that fill up (64 rows per zone
+    // in the wide configuration), so that column blocks hold many rows of mixed widths
+    let long: Vec<(usize, Row)> = (0..150).map(|r| (0usize, Row { k: r as i64 + 1, ctx: format!("c{}", r % 3), payload: payload_at((r * 7) % n, r as i64 + 1), ts: 0 })).collect();
+    out.push(("cycle150".to_string(), long));
     out
 }
 
@@ -257,9 +261,9 @@ pub fn check(tier: &str) -> i32 {
         schemas: vec![sch],
         datasets: datasets(tier),
         cfgs: if tier == "quick" {
-            vec![SysConfig { fill_factor: 4, event_per_zone: 2, ..Default::default() }]
+            vec![SysConfig { fill_factor: 4, event_per_zone: 2, ..Default::default() }, SysConfig { fill_factor: 2, event_per_zone: 64, ..Default::default() }]
         } else {
-            vec![SysConfig { fill_factor: 4, event_per_zone: 2, ..Default::default() }, SysConfig { fill_factor: 8, event_per_zone: 1, shards: 3, ..Default::default() }]
+            vec![SysConfig { fill_factor: 4, event_per_zone: 2, ..Default::default() }, SysConfig { fill_factor: 8, event_per_zone: 1, shards: 3, ..Default::default() }, SysConfig { fill_factor: 2, event_per_zone: 64, ..Default::default() }]
         },
         layouts,
         queries: qs.iter().map(|q| q.text.clone()).collect(),
